@@ -36,6 +36,9 @@ MUTS = {
  "hpack-evict": ("src/ls-hpack/lshpack.c", "    while (dec->hpd_cur_capacity > dec->hpd_cur_max_capacity)\n        hdec_drop_oldest_entry(dec);\n}", "    while (dec->hpd_cur_capacity > dec->hpd_cur_max_capacity + 32)\n        hdec_drop_oldest_entry(dec);\n}", ["C07"]),
  "dav-delete-subdir": ("src/mod_webdav.c", "            multi_status |= webdav_delete_dir(pconf, dst, r, flags);\n        }\n        else {\n            int status =\n              webdav_unlinkat(pconf, dst, dfd, de->d_name);",
                        "            multi_status |= 0;\n        }\n        else {\n            int status =\n              webdav_unlinkat(pconf, dst, dfd, de->d_name);", ["C18"]),
+ "alias-dotdot-guard": ("src/mod_alias.c", "        if (*s == '.') ++s;\n        if (*s == '/' || *s == '\\0') {", "        if (*s == '.') ++s;\n        if (*s == '/') {", ["C02"]),
+ "plain-pw-prefix": ("src/mod_authn_file.c", "rc = ck_memeq_const_time(BUF_PTR_LEN(tb), pw, strlen(pw)) ? 0 : -1;", "rc = (buffer_clen(tb) >= strlen(pw) && 0 == memcmp(tb->ptr, pw, strlen(pw))) ? 0 : -1;", ["C16"]),
+ "ws-before-colon": ("src/request.c", "        if (colon[-1] == ' ' || colon[-1] == '\\t') {\n            if (http_header_strict) {", "        if (colon[-1] == ' ' || colon[-1] == '\\t') {\n            if (0) {", ["C01"]),
  "else-link": ("src/configparser.y", "    C->prev = B;\n    B->next = C;\n    A = C;", "    C->prev = B;\n    A = C;", ["C14"]),
 }
 
